@@ -149,6 +149,7 @@ int main(int argc, char** argv) {
         dsp_log.reserve(400000);
         std::atomic<u16> last_reply[3];
         std::atomic<u32> sem_echo{0}, callbacks{0}, reentrant_calls{0};
+        std::atomic<u16> echoed{0}; // semaphore bits the DSP reported back (it echoes exactly the bits it read and acknowledged)
         for (auto& a : last_reply)
             a = 0;
         std::atomic<bool> stop{false}, guest_ready{false};
@@ -175,6 +176,7 @@ int main(int argc, char** argv) {
             t.ClearSemaphore(s);
             reentrant_calls.fetch_add(2, std::memory_order_relaxed);
             log_ev({now_ns(), 4, 0, s});
+            echoed.fetch_or(s, std::memory_order_release);
             sem_echo.fetch_add(1, std::memory_order_release);
         });
 
@@ -254,6 +256,23 @@ int main(int argc, char** argv) {
             return true;
         };
         u64 api_calls = 0;
+        u16 outstanding = 0; // semaphore bits set by the host whose echo has not been seen yet (host thread only)
+        auto harvest = [&] {
+            u16 done = (u16)(echoed.load(std::memory_order_acquire) & outstanding);
+            if (done) {
+                echoed.fetch_and((u16)~done, std::memory_order_acq_rel);
+                outstanding &= (u16)~done;
+                ctx.count("semaphore_bits_echoed", (u64)__builtin_popcount(done));
+            }
+        };
+        auto pick_free_bit = [&]() -> u16 {
+            for (int k = 0; k < 16; ++k) {
+                u16 b = (u16)(1u << g.below(16));
+                if (!(outstanding & b))
+                    return b;
+            }
+            return 0;
+        };
         for (unsigned r = 0; r < rounds && !bad; ++r) {
             // ---- stop-and-wait on a random channel or the semaphore
             unsigned what = (unsigned)g.below(4);
@@ -276,18 +295,23 @@ int main(int argc, char** argv) {
                 }
                 ctx.count(fmt("stop_and_wait_ch%d", ch));
             } else {
-                u32 before = sem_echo.load();
-                u16 bits = (u16)(1u << g.below(16));
+                harvest();
+                u16 bits = pick_free_bit();
+                if (!bits)
+                    continue;
                 host_log.push_back({now_ns(), 3, 0, bits});
+                outstanding |= bits;
                 t.SetSemaphore(bits);
                 ++api_calls;
-                if (!wait_until([&] { return sem_echo.load(std::memory_order_acquire) != before; }, "semaphore echo")) {
+                // every set with the interrupt enabled must be delivered: the DSP handler reads, acknowledges and echoes
+                // exactly the bits it saw, so this very bit has to come back
+                if (!wait_until([&] { harvest(); return (outstanding & bits) == 0; }, "echo of the semaphore bit just set")) {
                     bad = true;
                     if (!inconclusive.empty())
                         break;
                     if (why.empty())
                         why = "DSP thread ended";
-                    ctx.violation("progress:stop-and-wait:semaphore", why, c, JObj().num("round", r).num("bits", bits).done());
+                    ctx.violation("progress:stop-and-wait:semaphore", why, c, JObj().num("round", r).num("bit", bits).num("outstanding", outstanding).done());
                     break;
                 }
                 ctx.count("stop_and_wait_semaphore");
@@ -311,8 +335,24 @@ int main(int argc, char** argv) {
                 case 4: (void)t.RecvDataIsReady(ch); break;
                 case 5: (void)t.PeekRecvData(ch); break;
                 case 6: (void)t.GetSemaphore(); break;
-                case 7: t.SetSemaphore((u16)(1u << g.below(16))); break;
-                case 8: t.ClearSemaphore((u16)(1u << g.below(16))); break;
+                case 7: { // set without waiting: possibly while an earlier bit is still unacknowledged on the DSP side
+                    harvest();
+                    u16 b = pick_free_bit();
+                    if (b) {
+                        outstanding |= b;
+                        host_log.push_back({now_ns(), 3, 0, b});
+                        t.SetSemaphore(b);
+                    }
+                    break;
+                }
+                case 8: { // host-side service of the echo channel, racing with the callback's service
+                    u16 sv = t.GetSemaphore();
+                    if (sv) {
+                        echoed.fetch_or(sv, std::memory_order_release);
+                        t.ClearSemaphore(sv);
+                    }
+                    break;
+                }
                 case 9: t.MaskSemaphore(g.chance(1, 2) ? 0 : (u16)(1u << g.below(16))); t.MaskSemaphore(0); break;
                 case 10:
                     if (t.RecvDataIsReady(ch)) { // host-side read racing with the callback's read: either may get it
@@ -326,7 +366,16 @@ int main(int argc, char** argv) {
                 host_progress.fetch_add(1, std::memory_order_relaxed);
             }
         }
-        // ---- the sender stops: the last value of every channel must be observed within the bound
+        // ---- the sender stops: every semaphore bit that was set must have been serviced and echoed within the bound
+        if (!bad && outstanding) {
+            if (!wait_until([&] { harvest(); return outstanding == 0; }, "echo of all semaphore bits set")) {
+                bad = true;
+                if (inconclusive.empty())
+                    ctx.violation("progress:semaphore-bit-never-serviced", why.empty() ? "DSP thread ended" : why, c,
+                                  JObj().num("outstanding_bits", outstanding).num("dsp_side_semaphore", 0).done());
+            }
+        }
+        // ---- the last value of every channel must be observed within the bound
         if (!bad) {
             for (u8 ch = 0; ch < 3 && !bad; ++ch) {
                 if (sent[ch].empty())
